@@ -286,6 +286,231 @@ proof fn lemma_after_equal(ops: Seq<DiffOp>, ol: Seq<LineMetadata>, nl: Seq<Line
     }
 }
 
+// ---------------------------------------------------------------- collect_line_metadata: the line table tiles the text
+/// O1 stub for `content.char_indices()`: the (byte offset, char) pairs in order.  ASSUMED (documented behaviour of
+/// str::char_indices plus one UTF-8 fact): offsets are strictly ascending char boundaries inside the text, and a
+/// '\n' is one byte long, so the offset after it is a char boundary too.
+spec fn ci_ok(v: Seq<(usize, char)>, bytes: Seq<u8>) -> bool {
+    &&& forall|k: int| 0 <= k < v.len() ==> (#[trigger] v[k]).0 < bytes.len() && is_char_boundary(bytes, v[k].0 as int)
+    &&& forall|k: int, m: int| 0 <= k < m < v.len() ==> (#[trigger] v[k]).0 < (#[trigger] v[m]).0
+    &&& forall|k: int| 0 <= k < v.len() && (#[trigger] v[k]).1 == '\n' ==> is_char_boundary(bytes, v[k].0 + 1)
+}
+pub uninterp spec fn char_idx(bytes: Seq<u8>) -> Seq<(usize, char)>;
+#[verifier::external_body]
+fn opq_char_indices(s: &str) -> (r: Vec<(usize, char)>)
+    ensures r@ == char_idx(s.spec_bytes()), ci_ok(r@, s.spec_bytes()),
+{ unimplemented!() }
+/// O1 stubs for the line's text copy (`slice.to_string()`, stripping a trailing '\r'): the text field is not part of the geometry
+#[verifier::external_body]
+fn opq_owned(s: &str) -> (r: String)
+{ unimplemented!() }
+#[verifier::external_body]
+fn opq_strip_cr(s: &mut String)
+{ unimplemented!() }
+/// the lines so far tile [0, pos)
+spec fn tile_upto(lines: Seq<LineMetadata>, pos: int) -> bool {
+    &&& lines.len() == 0 ==> pos == 0
+    &&& lines.len() > 0 ==> lines[0].start == 0 && lines[lines.len() - 1].end == pos
+    &&& forall|i: int| 0 <= i < lines.len() ==> (#[trigger] lines[i]).start < lines[i].end
+    &&& forall|i: int, j: int| 0 <= i && j == i + 1 && j < lines.len() ==> (#[trigger] lines[i]).end == (#[trigger] lines[j]).start
+}
+proof fn lemma_tile_push(lines: Seq<LineMetadata>, pos: int, x: LineMetadata)
+    requires tile_upto(lines, pos), x.start == pos, x.start < x.end,
+    ensures tile_upto(lines.push(x), x.end as int),
+{
+    let l2 = lines.push(x);
+    assert forall|i: int, j: int| 0 <= i && j == i + 1 && j < l2.len() implies (#[trigger] l2[i]).end == (#[trigger] l2[j]).start by {
+        if j < lines.len() { assert(l2[i] == lines[i] && l2[j] == lines[j]); } else { assert(l2[j] == x); if i >= 0 && lines.len() > 0 { assert(l2[i] == lines[lines.len() - 1]); } }
+    }
+    assert forall|i: int| 0 <= i < l2.len() implies (#[trigger] l2[i]).start < l2[i].end by { if i < lines.len() { assert(l2[i] == lines[i]); } }
+    if lines.len() > 0 { assert(l2[0] == lines[0]); }
+}
+//#item file=src/authorship/attribution_tracker.rs kind=fn name=collect_line_metadata opaque='[{"expr": "content.char_indices()", "call": "opq_char_indices(content)"}, {"expr": "&content[line_start..idx]", "call": "str_sub(content, line_start, idx)"}, {"expr": "&content[line_start..content.len()]", "call": "str_sub(content, line_start, content.len())"}, {"expr": "slice.to_string()", "call": "opq_owned(slice)"}, {"stmt_from": "if text.ends_with(\u0027\\r\u0027) {", "nth": 0, "call": "opq_strip_cr(&mut text);"}, {"stmt_from": "if text.ends_with(\u0027\\r\u0027) {", "nth": 1, "call": "opq_strip_cr(&mut text);"}]'
+fn collect_line_metadata(content: &str) -> (r_: Vec<LineMetadata>)
+//@     requires content.spec_bytes().len() < usize::MAX,
+//@     ensures
+//@         // what region compute_loop assumes of both line tables: they tile the text, on char boundaries
+//@         lines_tile(r_@, content.spec_bytes().len() as int),
+//@         lines_on_boundaries(r_@, content.spec_bytes()),
+{
+    let mut metadata = Vec::new();
+    let mut line_start = 0usize;
+    let mut line_number = 1usize;
+    //@ let ghost bytes = content.spec_bytes();
+    //@ proof { encode_utf8_valid_utf8(content@); is_char_boundary_start_end_of_seq(bytes); }
+
+    for (idx, ch) in it_0: opq_char_indices(content)
+    //@     invariant
+    //@         bytes == content.spec_bytes(), it_0.snapshot@.remaining() == char_idx(bytes), ci_ok(char_idx(bytes), bytes),
+    //@         tile_upto(metadata@, line_start as int), lines_on_boundaries(metadata@, bytes),
+    //@         line_start <= bytes.len(), is_char_boundary(bytes, line_start as int), is_char_boundary(bytes, bytes.len() as int),
+    //@         it_0.index@ < char_idx(bytes).len() ==> line_start <= char_idx(bytes)[it_0.index@].0,
+    //@         line_number == metadata@.len() + 1, metadata@.len() <= line_start, bytes.len() < usize::MAX,
+    {
+        //@ let ghost k = it_0.index@;
+        //@ let ghost v = char_idx(bytes);
+        //@ proof { assert((idx, ch) == v[k]); if k + 1 < v.len() { assert(v[k].0 < v[k + 1].0); } }
+        if ch == '\n' {
+            let slice = str_sub(content, line_start, idx);
+            let mut text = opq_owned(slice);
+            opq_strip_cr(&mut text);
+            //@ let ghost m0 = metadata@;
+            metadata.push(LineMetadata {
+                number: line_number,
+                start: line_start,
+                end: idx + 1,
+                text,
+            });
+            //@ proof { lemma_tile_push(m0, line_start as int, metadata@[m0.len() as int]); assert(metadata@ =~= m0.push(metadata@[m0.len() as int])); }
+            line_start = idx + 1;
+            line_number += 1;
+        }
+    }
+
+    if line_start < content.len() {
+        let slice = str_sub(content, line_start, content.len());
+        let mut text = opq_owned(slice);
+        opq_strip_cr(&mut text);
+        //@ let ghost m0 = metadata@;
+        metadata.push(LineMetadata {
+            number: line_number,
+            start: line_start,
+            end: content.len(),
+            text,
+        });
+        //@ proof { lemma_tile_push(m0, line_start as int, metadata@[m0.len() as int]); assert(metadata@ =~= m0.push(metadata@[m0.len() as int])); }
+    }
+    //@ proof { reveal(lines_tile); }
+
+    metadata
+}
+//#end
+
+// ---------------------------------------------------------------- hunks_to_diff_ops: imara hunks -> ops that tile both sequences
+/// stand-ins for imara_diff::Diff (never inspected) and imara_diff::Hunk (its two public fields)
+pub struct Diff { pub _opaque: () }
+pub struct Hunk { pub before: core::ops::Range<u32>, pub after: core::ops::Range<u32> }
+pub uninterp spec fn hunks_of(d: &Diff) -> Seq<Hunk>;
+/// O1 stub for `diff.hunks()`
+#[verifier::external_body]
+fn opq_hunks(d: &Diff) -> (r: Vec<Hunk>)
+    ensures r@ == hunks_of(d),
+{ unimplemented!() }
+/// end of the hunk before index k on one side (0 before the first)
+spec fn hk_end(hs: Seq<Hunk>, k: int, for_old: bool) -> int { if k <= 0 { 0 } else if for_old { hs[k - 1].before.end as int } else { hs[k - 1].after.end as int } }
+spec fn hunks_wf(hs: Seq<Hunk>, ol: int, nl: int) -> bool {
+    &&& forall|k: int| 0 <= k < hs.len() ==>
+            hk_end(hs, k, true) <= (#[trigger] hs[k]).before.start <= hs[k].before.end <= ol
+            && hk_end(hs, k, false) <= hs[k].after.start <= hs[k].after.end <= nl
+            && hs[k].before.start - hk_end(hs, k, true) == hs[k].after.start - hk_end(hs, k, false)
+    &&& hk_end(hs, hs.len() as int, true) <= ol && ol - hk_end(hs, hs.len() as int, true) == nl - hk_end(hs, hs.len() as int, false)
+}
+/// the ops so far tile [0, pos) of one side
+spec fn ops_upto(ops: Seq<DiffOp>, for_old: bool, pos: int) -> bool {
+    &&& forall|i: int| 0 <= i < ops.len() ==> op_span(#[trigger] ops[i], for_old).0 == prev_end(ops, for_old, i)
+    &&& prev_end(ops, for_old, ops.len() as int) == pos
+}
+proof fn lemma_ops_push(ops: Seq<DiffOp>, x: DiffOp, for_old: bool, pos: int)
+    requires ops_upto(ops, for_old, pos), op_span(x, for_old).0 == pos,
+    ensures ops_upto(ops.push(x), for_old, op_span(x, for_old).1),
+{
+    let o2 = ops.push(x);
+    assert forall|i: int| 0 <= i < o2.len() implies op_span(#[trigger] o2[i], for_old).0 == prev_end(o2, for_old, i) by {
+        if i < ops.len() { assert(o2[i] == ops[i]); if i > 0 { assert(o2[i - 1] == ops[i - 1]); } } else { if i > 0 { assert(o2[i - 1] == ops[i - 1]); } }
+    }
+}
+//#item file=src/authorship/imara_diff_utils.rs kind=fn name=hunks_to_diff_ops opaque='[{"expr": "diff.hunks()", "call": "opq_hunks(diff)"}]'
+fn hunks_to_diff_ops(diff: &Diff, old_len: usize, _new_len: usize) -> (r_: Vec<DiffOp>)
+//@     requires
+//@         // ASSUMED of imara-diff: hunks in order, inside both sequences, and separated by equally long unchanged stretches
+//@         hunks_wf(hunks_of(diff), old_len as int, _new_len as int),
+//@     ensures
+//@         // what region compute_loop (and build_token_aligned_diffs) assume of the ops: they tile both index spaces in order
+//@         ops_tile(r_@, true, old_len as int), ops_tile(r_@, false, _new_len as int),
+{
+    let mut ops = Vec::new();
+    let mut old_idx: usize = 0;
+    let mut new_idx: usize = 0;
+    //@ let ghost hs = hunks_of(diff);
+
+    for hunk in it_0: opq_hunks(diff)
+    //@     invariant
+    //@         hs == hunks_of(diff), it_0.snapshot@.remaining() == hs, hunks_wf(hs, old_len as int, _new_len as int),
+    //@         old_idx as int == hk_end(hs, it_0.index@, true), new_idx as int == hk_end(hs, it_0.index@, false),
+    //@         ops_upto(ops@, true, old_idx as int), ops_upto(ops@, false, new_idx as int),
+    {
+        //@ let ghost k = it_0.index@; let ghost o0 = ops@;
+        //@ proof { assert(hunk == hs[k]); }
+        let hunk_old_start = hunk.before.start as usize;
+        let hunk_old_end = hunk.before.end as usize;
+        let hunk_new_start = hunk.after.start as usize;
+        let hunk_new_end = hunk.after.end as usize;
+
+        // Add Equal operation for unchanged content before this hunk
+        if old_idx < hunk_old_start {
+            let equal_len = hunk_old_start - old_idx;
+            ops.push(DiffOp::Equal {
+                old_index: old_idx,
+                new_index: new_idx,
+                len: equal_len,
+            });
+            //@ proof { let x = ops@[o0.len() as int]; assert(ops@ =~= o0.push(x)); lemma_ops_push(o0, x, true, old_idx as int); lemma_ops_push(o0, x, false, new_idx as int); }
+        }
+
+        //@ let ghost o1 = ops@;
+        //@ proof { assert(ops_upto(o1, true, hunk_old_start as int) && ops_upto(o1, false, hunk_new_start as int)); }
+        // Determine the type of change in this hunk
+        let old_hunk_len = hunk_old_end - hunk_old_start;
+        let new_hunk_len = hunk_new_end - hunk_new_start;
+
+        if old_hunk_len > 0 && new_hunk_len > 0 {
+            // Replace: both old and new have content
+            ops.push(DiffOp::Replace {
+                old_index: hunk_old_start,
+                old_len: old_hunk_len,
+                new_index: hunk_new_start,
+                new_len: new_hunk_len,
+            });
+            //@ proof { let x = ops@[o1.len() as int]; assert(ops@ =~= o1.push(x)); lemma_ops_push(o1, x, true, hunk_old_start as int); lemma_ops_push(o1, x, false, hunk_new_start as int); }
+        } else if old_hunk_len > 0 {
+            // Delete: only old has content
+            ops.push(DiffOp::Delete {
+                old_index: hunk_old_start,
+                old_len: old_hunk_len,
+                new_index: hunk_new_start,
+            });
+            //@ proof { let x = ops@[o1.len() as int]; assert(ops@ =~= o1.push(x)); lemma_ops_push(o1, x, true, hunk_old_start as int); lemma_ops_push(o1, x, false, hunk_new_start as int); }
+        } else if new_hunk_len > 0 {
+            // Insert: only new has content
+            ops.push(DiffOp::Insert {
+                old_index: hunk_old_start,
+                new_index: hunk_new_start,
+                new_len: new_hunk_len,
+            });
+            //@ proof { let x = ops@[o1.len() as int]; assert(ops@ =~= o1.push(x)); lemma_ops_push(o1, x, true, hunk_old_start as int); lemma_ops_push(o1, x, false, hunk_new_start as int); }
+        }
+
+        old_idx = hunk_old_end;
+        new_idx = hunk_new_end;
+    }
+
+    //@ let ghost o2 = ops@;
+    // Add final Equal operation for unchanged content after last hunk
+    if old_idx < old_len {
+        let remaining = old_len - old_idx;
+        ops.push(DiffOp::Equal {
+            old_index: old_idx,
+            new_index: new_idx,
+            len: remaining,
+        });
+            //@ proof { let x = ops@[o2.len() as int]; assert(ops@ =~= o2.push(x)); lemma_ops_push(o2, x, true, old_idx as int); lemma_ops_push(o2, x, false, new_idx as int); }
+    }
+
+    //@ proof { reveal(ops_tile); }
+    ops
+}
+//#end
+
 impl AttributionTracker {
 //#item file=src/authorship/attribution_tracker.rs kind=fn name=push_equal_lines impl="AttributionTracker"
     fn push_equal_lines(
